@@ -93,6 +93,7 @@ const (
 	RPathQueryTS   = "risky_path_plus_query_bodyless"
 	RDupMethodHeader = "risky_same_header_on_two_methods"
 	RPathNoSlash     = "risky_path_without_leading_slash"
+	ROptionalOverride = "risky_optional_method_header_overrides_required_service_header"
 	RSameMethodName  = "risky_same_method_name_in_two_services"
 )
 
@@ -641,7 +642,9 @@ func (x *g) method(s *spec.Service, name string, idx int, usedRoutes map[string]
 			}
 		}
 		if !dup {
-			m.Headers = append(m.Headers, x.header(swapCase(sh.Name)))
+			oh := x.header(swapCase(sh.Name))
+			oh.Required = !x.has(ROptionalOverride)
+			m.Headers = append(m.Headers, oh)
 		}
 	}
 	m.In, m.Out = x.fq(reqName), x.fq(respName)
